@@ -327,6 +327,12 @@ def run(ctx):
         from .common import share
         share(ctx, "C03", ("R03.1",), "R02.7", "source-order obligations shared with C03", 3)
         share(ctx, "C01", ("R01.5", "R01.8", "R01.10"), "R02.7", "matching/bundle obligations shared with C01", 5)
+    # ---- R02.8: what the spelling means does not depend on the parser object's past or on the entry point taken
+    ctx.rule("R02.8", "a spelled value is not rejected or replaced because of an earlier parse (R14.2 re-evaluated) and raw strings become tokens in one place only (R12.10 re-evaluated)")
+    if ctx.prop == "C02" and not getattr(ctx, "_sharing", False):
+        from .common import share
+        share(ctx, "C14", ("R14.2",), "R02.8", "reset obligations shared with C14", 3)
+        share(ctx, "C12", ("R12.10",), "R02.8", "entry-point obligations shared with C12", 2)
     ctx.assume("the round-trip equation itself, interleavings of items and as<T>() numeric conversion are not decided")
 
 
